@@ -280,7 +280,7 @@ def canonical_unitary(
     global_phase_factor = np.exp(-1j * global_phase)
     special_unitary = global_phase_factor * unitary
     # Standardize speical unitary to account for exp(-i2pi/N) differences
-    first_row_mags = np.linalg.norm(special_unitary[0, :], ord=2)
+    first_row_mags = np.abs(special_unitary[0, :])
     index = np.argmax(first_row_mags)
     std_phase = np.angle(special_unitary[0, index])
     correction_phase = 0 - std_phase
